@@ -1,1 +1,91 @@
-From OPF Require Import Model.Sup.
+From OPF Require Import Proofs.HeapPrelude Base.Lists Model.Heap Model.Sup Spec.Paths.
+From OPF Require Import Proofs.FitBase Proofs.FitSup Proofs.FitExample.
+
+(* The competition loop of SupervisedOPF.fit, started from an arbitrary node table [nd0] with
+   a non-empty prototype set, computes an optimum-path forest for the max-arc path cost.
+   [before l p q] (Proofs/FitBase.v): p occurs strictly before q in l. *)
+Theorem C01_compete_optimum_path_forest :
+  forall (zero top : Z) (n : nat) (w : nat -> nat -> Z) (nd0 : @nodes Z),
+    let isproto q := nth q (n_status nd0) false = true in
+    (zero < top)%Z ->
+    (forall p q, (p < n)%nat -> (q < n)%nat -> p <> q -> (zero <= w p q < top)%Z) ->
+    length (n_cost nd0) = n -> length (n_pred nd0) = n -> length (n_label nd0) = n ->
+    length (n_plabel nd0) = n -> n_order nd0 = [] ->
+    (exists s, (s < n)%nat /\ isproto s) ->
+    let nd := compete Z.ltb zero top false n w nd0 in
+    let cost q := nth q (n_cost nd) zero in
+    let pred q := nth q (n_pred nd) None in
+    let plabel q := nth q (n_plabel nd) 0%nat in
+    (* the conquest order lists every node exactly once, in non-decreasing cost *)
+    Permutation (n_order nd) (seq 0 n) /\
+    (forall i j, (i < j)%nat -> (j < n)%nat ->
+       (cost (nth i (n_order nd) 0%nat) <= cost (nth j (n_order nd) 0%nat))%Z) /\
+    (* prototypes are roots with cost zero and their own label *)
+    (forall q, (q < n)%nat -> isproto q ->
+       pred q = None /\ cost q = zero /\ plabel q = nth q (n_label nd0) 0%nat) /\
+    (* every other node has a predecessor conquered earlier, satisfying the link equation *)
+    (forall q, (q < n)%nat -> ~ isproto q ->
+       exists p, pred q = Some p /\ (p < n)%nat /\ p <> q /\
+         cost q = Z.max (cost p) (w p q) /\ plabel q = plabel p /\ before (n_order nd) p q) /\
+    (* following predecessors reaches a prototype in fewer than n steps; its label is assigned *)
+    (forall q, (q < n)%nat ->
+       exists r k, (r < n)%nat /\ isproto r /\ reaches pred q r k /\ pred r = None /\
+         (k < n)%nat /\ plabel q = nth r (n_label nd0) 0%nat) /\
+    (* the recorded cost is the minimum over all paths from prototypes of the largest arc *)
+    (forall q s pi, (q < n)%nat -> (s < n)%nat -> isproto s -> path_from_to n s q pi ->
+       (cost q <= pathmax w zero pi)%Z) /\
+    (forall q, (q < n)%nat -> exists s pi, (s < n)%nat /\ isproto s /\ path_from_to n s q pi /\
+       pathmax w zero pi = cost q) /\
+    (* prototype flags and labels are not written *)
+    n_status nd = n_status nd0 /\ n_label nd = n_label nd0.
+Proof. exact compete_false_opf. Qed.
+
+(* SupervisedOPF.fit = _find_prototypes followed by the competition.  The only assumption on
+   _find_prototypes is that it marks at least one prototype (C02: every class present
+   contributes one, so two classes suffice). *)
+Theorem C01_sup_fit_optimum_path_forest :
+  forall (zero top : Z) (labels : list nat) (w : nat -> nat -> Z),
+    let n := length labels in
+    let fp := find_prototypes Z.ltb top n w (nodes_init zero labels) in
+    let isproto q := nth q (n_status fp) false = true in
+    (zero < top)%Z ->
+    (forall p q, (p < n)%nat -> (q < n)%nat -> p <> q -> (zero <= w p q < top)%Z) ->
+    (exists s, (s < n)%nat /\ isproto s) ->
+    let nd := sup_fit Z.ltb zero top labels w in
+    let cost q := nth q (n_cost nd) zero in
+    let pred q := nth q (n_pred nd) None in
+    let plabel q := nth q (n_plabel nd) 0%nat in
+    Permutation (n_order nd) (seq 0 n) /\
+    (forall i j, (i < j)%nat -> (j < n)%nat ->
+       (cost (nth i (n_order nd) 0%nat) <= cost (nth j (n_order nd) 0%nat))%Z) /\
+    (forall q, (q < n)%nat -> isproto q ->
+       pred q = None /\ cost q = zero /\ plabel q = nth q labels 0%nat) /\
+    (forall q, (q < n)%nat -> ~ isproto q ->
+       exists p, pred q = Some p /\ (p < n)%nat /\ p <> q /\
+         cost q = Z.max (cost p) (w p q) /\ plabel q = plabel p /\ before (n_order nd) p q) /\
+    (forall q, (q < n)%nat ->
+       exists r k, (r < n)%nat /\ isproto r /\ reaches pred q r k /\ pred r = None /\
+         (k < n)%nat /\ plabel q = nth r labels 0%nat) /\
+    (forall q s pi, (q < n)%nat -> (s < n)%nat -> isproto s -> path_from_to n s q pi ->
+       (cost q <= pathmax w zero pi)%Z) /\
+    (forall q, (q < n)%nat -> exists s pi, (s < n)%nat /\ isproto s /\ path_from_to n s q pi /\
+       pathmax w zero pi = cost q) /\
+    n_status nd = n_status fp /\ n_label nd = labels.
+Proof. exact sup_fit_opf. Qed.
+
+(* non-vacuity: a 5-sample, 2-class instance with tied weights satisfies the premises *)
+Theorem C01_example_premises :
+  (0 < 1000)%Z /\
+  (forall p q, (p < length ex_labels)%nat -> (q < length ex_labels)%nat -> p <> q ->
+     (0 <= ex_w p q < 1000)%Z) /\
+  (exists s, (s < length ex_labels)%nat /\
+     nth s (n_status (find_prototypes Z.ltb 1000%Z (length ex_labels) ex_w
+                        (nodes_init 0%Z ex_labels))) false = true).
+Proof. exact ex_premises. Qed.
+
+Theorem C01_example_result :
+  sup_fit Z.ltb 0%Z 1000%Z ex_labels ex_w =
+  mkNodes [2; 2; 0; 0; 2]%Z [Some 1; Some 2; None; None; Some 3]%nat [0; 0; 0; 1; 1]%nat
+          [0; 0; 0; 1; 1]%nat [false; false; true; true; false]
+          [false; false; false; false; false] [2; 3; 1; 4; 0]%nat.
+Proof. exact ex_sup_fit. Qed.
